@@ -90,6 +90,8 @@ SETTINGS = [
     ("style", "pages theme-grid"),
     ("namespaces", 'zz="http://zz.example/ns" yy=http://yy.example'),
     ("attribute::plain", "pv"),
+    ("attribute::id", "other-id"),          # a custom root attribute may not displace the form id ...
+    ("attribute::version", "other-version"),  # ... nor the version
     ("attribute::zz:pref", "zv"),
     ("instance_xmlns", "http://inst.example/x"),
     ("omit_instanceID", "true"),
@@ -259,6 +261,14 @@ def gen_text(tier):
                         continue
                     txt = (s + " ${t0} " + s) if ref else s
                     yield {"wb": text_form(chn, txt), "meta": {"gen": "text", "ch": chn, "ref": ref}, "id": "data"}
+    # cell text with line breaks / tabs next to quotes and markup characters (multi-line messages and labels)
+    for s in ['a\n"b', '"\n', "'\n\"", "\n<", "x\ty\"z", "a\r\nb\"", "&\n\"<\">"]:
+        for chn in CHANNELS:
+            for ref in (False, True):
+                if ref and chn in ("form_title", "version", "appearance", "attrval", "cextra"):
+                    continue
+                txt = (s + " ${t0} " + s) if ref else s
+                yield {"wb": text_form(chn, txt), "meta": {"gen": "text", "ch": chn, "ref": ref}, "id": "data"}
 
 
 LTYPES = [
